@@ -13,6 +13,7 @@ def run(check):
     check.guarded("SPREAD-ONCE", X.rule_spread_once)
     check.guarded("ORDER", X.rule_order)
     check.guarded("FRESH-TEMP", X.rule_fresh_temp)
+    check.guarded("KEPT-IN-PLACE", X.rule_kept_in_place)
     return {
         "explanation": "Counted-effect analysis of the hook argument vector over all structural paths (with summaries of crate-local callees), same-origin provenance rules between what is pushed and what is left in place, shape/order rules for the hook call and the method-call signature, and spread handling.",
         "assumptions": ["Take::map_with_mut runs its closure exactly once"],
